@@ -7,6 +7,13 @@ VERIF = os.path.dirname(os.path.dirname(os.path.abspath(__file__)))
 TECH = "machine-checked proof in Rocq/Coq 8.16 (theorems over a model regenerated from the source and tied to it by a differential correspondence check)"
 
 CLAIMED = {
+    "C03": ("Theorems for every input, every split into update calls and every history over update / finalize / processed_len / "
+            "clone / drop / swap: on every state meeting the representation invariant (which new() establishes and update "
+            "preserves) update never panics and equals the byte-wise fold, so update(update(s,a),b) = update(s,a++b), any "
+            "chunking ends in the same state, and every observed generator instance is in exactly the state of a fresh "
+            "generator fed the bytes it has seen; finalize is a function of the state for any std-conforming selection.",
+            "clone/&self purity of the implementation is checked by the HIST suite (raw state through the hook), not proved; "
+            "select_nth_unstable by contract"),
     "C04": ("Theorems for every hash value, every variant and every table/SIMD/strictness configuration of the codec: "
             "store_into_str_bytes writes exactly the reference text (advertised length, optional T1, uppercase hex), parsing it "
             "back through any entry point yields the identical hash, Display is the T1 form, and every accepted string "
@@ -27,6 +34,17 @@ CLAIMED = {
             "exact and tiling; 170..255 invalid. Tied to the code by the translator (table re-read each run, cross-checked against "
             "the compiled constants) and by an exhaustive comparison of all 2^32 lengths (RLE) plus point cases.",
             "std binary_search and leading_zeros by contract; hand model of length.rs tied by exhaustive correspondence; Coq kernel+VM; translator; extraction"),
+    "C10": ("Theorems for every reachable generator state and any std-conforming selection: finalize reports a data-length "
+            "error exactly when the published classification (DataLengthValidity) is an error for the mode and small inputs "
+            "are not allowed; TooLarge is never waivable; length errors precede distribution errors; o <= o' in the "
+            "permissiveness order (same Q mode) preserves every Ok result bit for bit; allow-quarter implies allow-half; dummy "
+            "quartiles only when q3 = 0; MIN/MIN_CONSERVATIVE/MAX regenerated from the source equal 10/10, 50/128, 50/128, 4224281216.",
+            "select_nth_unstable by contract; hand model of finalize tied by GEN-HASH (all 32 option settings per input)"),
+    "C11": ("Theorems for any amount of data in any chunking (unbounded lists, the 2^32-4 saturation and the usize->u32 clamp "
+            "written explicitly): update never panics, len <= 2^32-4 and tail_len <= 4 always, processed_len = Some n below 2^32 "
+            "and None from 2^32 on, finalize = TooLargeInput iff n > 4224281216 and never panics; code 169 at exactly MAX.",
+            "states near the limits are injected through the hook (thorough: real multi-GiB streams); a > 4 GiB single slice is "
+            "exercised by the HUGE-SLICE case"),
     "C14": ("Theorems for every hash, variant, form (bytes, hex, hex+prefix), configuration and every buffer (any length, any prior "
             "content): BufferIsTooSmall with an untouched buffer iff shorter than the advertised size, otherwise Ok(size), the "
             "representation in the first size bytes and every later byte unchanged; no slice/assert inside the serializers can fire "
